@@ -1,0 +1,5 @@
+//go:build !verif
+
+package logic
+
+func verifCleanupGate(streamName string) {}
